@@ -138,3 +138,105 @@ Definition ex_steps_late : list pstep :=
 
 Example ex_timeout : exec 24 w0 None ex_steps_late = [(80, None); (104, Some ("7"%string, 80))].
 Proof. vm_compute. reflexivity. Qed.
+
+(* =====================================================================================
+   The property in its own words (views and versions), under in-order delivery
+   ===================================================================================== *)
+Section Views.
+Variable ver : rv -> Z.
+
+(* the last own patch is either still outstanding, or its echo was delivered: then everything delivered
+   since (in order) is at least as new *)
+Definition link (o last : option (rv * Z)) (cur : Z) : Prop :=
+  match last with
+  | None => o = None
+  | Some (r, tp) => o = Some (r, tp) \/ (o = None /\ ver r <= cur)
+  end.
+
+Lemma link_event : forall o last cur y, cur <= ver y -> link o last cur ->
+  link (spec_event o (Some y)) last (ver y).
+Proof.
+  intros o last cur y L K. unfold link in *. destruct last as [[r tp]|].
+  - destruct K as [->|[-> V]].
+    + simpl. destruct (String.eqb r y) eqn:Q.
+      * apply String.eqb_eq in Q. subst. right. split; [reflexivity|lia].
+      * left. reflexivity.
+    + right. split; [reflexivity|lia].
+  - subst. reflexivity.
+Qed.
+
+Lemma link_patch : forall T o last cur n t,
+  link o last cur -> link (spec_patch T o n t) (last_patch T last n t) cur.
+Proof.
+  intros T o last cur n t K. unfold spec_patch, last_patch. destruct n as [r|]; [|exact K].
+  destruct (Z.eqb T 0); [exact K|]. left. reflexivity.
+Qed.
+
+Theorem barrier_views_gen : forall T l w o last cur, Rel T w o -> link o last cur ->
+  delivered_in_order ver cur l -> Forall (view_ok ver T) (exec_views T w last l).
+Proof.
+  intros T l. induction l as [|p l IH]; intros w o last cur R K D; simpl; [constructor|].
+  destruct D as (y & EY & LE & D').
+  pose proof (rel_event T w o (p_rv p) R) as R1. rewrite EY in *.
+  pose proof (link_event o last cur y LE K) as K1.
+  apply Forall_app. split.
+  - destruct (runs_handlers (gin_of (on_event w (Some y)) p)) eqn:E; [|constructor].
+    constructor; [|constructor]. unfold view_ok. destruct last as [[r tp]|]; [|exact I].
+    pose proof (gate_barrier T _ _ p R1 E) as A. unfold link in K1. destruct K1 as [Q|[Q V]]; rewrite Q in A; simpl in A.
+    + right. exact A.
+    + left. exact V.
+  - eapply IH; [apply rel_patch; exact R1|apply link_patch; exact K1|exact D'].
+Qed.
+
+Theorem barrier_views : forall T l cur, delivered_in_order ver cur l ->
+  Forall (view_ok ver T) (exec_views T w0 None l).
+Proof. intros T l cur D. eapply barrier_views_gen; [apply rel_init|reflexivity|exact D]. Qed.
+End Views.
+
+(* ---------- the gate never holds anything longer than needed ---------- *)
+Theorem gate_bounded : forall g,
+  g_now g <= o_until (gate g) /\
+  o_until (gate g) <= Z.max (g_now g) (match g_ctime g with Some t => t | None => g_now g end).
+Proof.
+  intros g. unfold gate. cbn [o_until].
+  destruct (g_required g && negb (match g_ctime g with None => true | Some _ => false end || g_required g && g_gone g)
+            && g_pne g && match g_ctime g with Some t => negb (t =? 0) | None => false end) eqn:S.
+  - destruct (g_ctime g) as [ct|]; [|rewrite !andb_false_r in S; discriminate].
+    destruct (ct - g_now g <=? 0) eqn:L; [lia|]. apply Z.leb_gt in L.
+    destruct (g_press g) as [tp|]; [destruct (tp <? ct) eqn:Q; [apply Z.ltb_lt in Q|]|]; lia.
+  - destruct (g_ctime g); lia.
+Qed.
+
+(* a new event (it sets stream_pressure at tp) ends the wait at once: whatever is processed next — the raw-event
+   handlers, the indexing and the daemon/timer spawning of the NEXT event — is not held back by the barrier *)
+Theorem next_event_not_delayed : forall g tp, g_press g = Some tp ->
+  o_until (gate g) <= Z.max (g_now g) tp.
+Proof.
+  intros g tp E. unfold gate. cbn [o_until]. rewrite E.
+  destruct (g_required g && negb (match g_ctime g with None => true | Some _ => false end || g_required g && g_gone g)
+            && g_pne g && match g_ctime g with Some t => negb (t =? 0) | None => false end) eqn:S; [|lia].
+  destruct (g_ctime g) as [ct|]; [|rewrite !andb_false_r in S; discriminate].
+  destruct (ct - g_now g <=? 0) eqn:L; [lia|]. apply Z.leb_gt in L.
+  destruct (tp <? ct) eqn:Q; [lia|]. apply Z.ltb_ge in Q. lia.
+Qed.
+
+(* ---------- non-vacuity ---------- *)
+Definition ver10 (r : rv) : Z :=
+  if String.eqb r "5" then 5 else if String.eqb r "6" then 6 else if String.eqb r "7" then 7 else 0.
+
+Example ex_views_in_order : delivered_in_order ver10 0 ex_steps /\ delivered_in_order ver10 0 ex_steps_late.
+Proof. split; simpl; repeat (eexists; split; [reflexivity|split; [vm_compute; discriminate|]]); exact I. Qed.
+
+Example ex_views : exec_views 24 w0 None ex_steps = [(80, Some "5"%string, None); (96, Some "7"%string, Some ("7"%string, 80))]
+  /\ exec_views 24 w0 None ex_steps_late = [(80, Some "5"%string, None); (104, Some "6"%string, Some ("7"%string, 80))].
+Proof. split; vm_compute; reflexivity. Qed.
+
+Example ex_interrupt : let g := mkG true false (Some 124) true true 100 (Some 110) in
+  o_slept (gate g) = true /\ o_until (gate g) = 110 /\ o_go (gate g) = false.
+Proof. vm_compute. repeat split. Qed.
+
+Example ex_views_all :
+  delivered_in_order ver10 0 ex_steps /\ delivered_in_order ver10 0 ex_steps_late /\
+  exec_views 24 w0 None ex_steps = [(80, Some "5"%string, None); (96, Some "7"%string, Some ("7"%string, 80))] /\
+  exec_views 24 w0 None ex_steps_late = [(80, Some "5"%string, None); (104, Some "6"%string, Some ("7"%string, 80))].
+Proof. exact (conj (proj1 ex_views_in_order) (conj (proj2 ex_views_in_order) ex_views)). Qed.
